@@ -3,6 +3,7 @@ package main
 import (
 	"go/token"
 	"go/types"
+	"strings"
 
 	"golang.org/x/tools/go/ssa"
 )
@@ -128,6 +129,55 @@ func ruleMemo(c *Ctx) {
 		}
 	}
 	c.atLeast("memo cache stores", n, 2)
+
+	// KEY: the caches live as long as the Interpreter, across Execute calls with different configurations. A
+	// function that fills one must therefore not let the cached value depend on per-run configuration (any field
+	// that setExecuteConfig or resetCore re-establish): the entry computed under the first run's setting would be
+	// served to later runs
+	perRun := map[string]bool{}
+	for _, name := range []string{"interp.setExecuteConfig", "interp.resetCore"} {
+		if f := c.ssaFunc("interp", name); f != nil {
+			for k := range mustStoreAtSuccess(f) {
+				perRun[k] = true
+			}
+		}
+	}
+	nKey := 0
+	for _, fn := range c.srcFuncs("interp") {
+		fills := false
+		allInstrs(fn, func(in ssa.Instruction) {
+			if mu, ok := in.(*ssa.MapUpdate); ok {
+				if ld, ok := mu.Map.(*ssa.UnOp); ok {
+					if f, _ := fieldOfAddr(ld.X); f != nil && memoFields[f.Name()] {
+						fills = true
+					}
+				}
+			}
+		})
+		if !fills {
+			continue
+		}
+		nKey++
+		var deps []string
+		seen := map[string]bool{}
+		allInstrs(fn, func(in ssa.Instruction) {
+			ld, ok := in.(*ssa.UnOp)
+			if !ok || ld.Op != token.MUL {
+				return
+			}
+			f, x := fieldOfAddr(ld.X)
+			if f == nil || (!isInterp(x.Type()) && !isInterp(deref(x.Type()))) {
+				return
+			}
+			if memoFields[f.Name()] || !perRun[f.Name()] || seen[f.Name()] {
+				return
+			}
+			seen[f.Name()] = true
+			deps = append(deps, f.Name())
+		})
+		c.check(len(deps) == 0, "memo-key:"+fnKey(fn), fn.Pos(), "the cached value depends on the key only (no per-run configuration is read while computing it)", fnKey(fn)+" reads per-run configuration ("+strings.Join(deps, ", ")+") while computing a value it caches for the lifetime of the Interpreter: a later Execute with a different configuration is served the entry computed under the earlier one")
+	}
+	c.atLeast("functions that fill a memo cache", nKey, 2)
 }
 
 func memoSame(v ssa.Value, set []ssa.Value) bool {
